@@ -67,6 +67,15 @@ type P struct {
 // inside a map[string]interface{}, where the ignore list is not consulted.
 type Owner struct{ Name string }
 
+// realET: the second event type of the compositions is an ordinary Go string that needs care when it is written into a
+// document: control characters, DEL, a quote, invalid UTF-8 and a non-printable rune above U+FFFF.
+func realET(s string) eventlogger.EventType {
+	if s == "B" {
+		return "B\a\v\x7f\"\xe9 \U000e0001"
+	}
+	return eventlogger.EventType(s)
+}
+
 // rotationEvent implements encrypt.RotateWrapper (no new wrapper, new salt and info).
 type rotationEvent struct {
 	Note       string
@@ -287,7 +296,7 @@ func runComp(t interface{ Fatalf(string, ...any) }, root string, caseNo int, spe
 		if len(ps.Filters) > 0 && (ps.Filters[0] == "encrypt" || strings.HasPrefix(ps.Filters[0], "gated")) && i > 0 {
 			mutatingBehind = true // behind the root of a sibling pipeline in range order
 		}
-		if err := b.RegisterPipeline(eventlogger.Pipeline{PipelineID: eventlogger.PipelineID(fmt.Sprintf("p%d", i)), EventType: eventlogger.EventType(ps.ET), NodeIDs: ids}); err != nil {
+		if err := b.RegisterPipeline(eventlogger.Pipeline{PipelineID: eventlogger.PipelineID(fmt.Sprintf("p%d", i)), EventType: realET(ps.ET), NodeIDs: ids}); err != nil {
 			t.Fatalf("harness: RegisterPipeline %v: %v", ids, err)
 		}
 		perType[ps.ET]++
@@ -328,7 +337,7 @@ func runComp(t interface{ Fatalf(string, ...any) }, root string, caseNo int, spe
 			}()
 		}
 		ctl(func(int) { _ = b.Reopen(ctx) })
-		ctl(func(i int) { _ = b.SetSuccessThreshold("A", i%2); _ = b.SetSuccessThresholdSinks("B", 0) })
+		ctl(func(i int) { _ = b.SetSuccessThreshold("A", i%2); _ = b.SetSuccessThresholdSinks(realET("B"), 0) })
 		if len(encs) > 0 {
 			ctl(func(i int) {
 				for _, f := range encs {
@@ -369,13 +378,16 @@ func runComp(t interface{ Fatalf(string, ...any) }, root string, caseNo int, spe
 				case len(encs) > 0 && i%17 == 5:
 					// a key-rotation event (same-length salt / info): consumed by the encrypt filters of its type
 					payload = &rotationEvent{salt: []byte{byte('a' + i%26)}, info: []byte{byte('A' + s%26)}}
+				case i%23 == 7:
+					// a large event: the formatted document is about 20, 60 or 100 KB
+					payload = map[string]interface{}{"blob": strings.Repeat("y", []int{60000, 20000, 100000, 60000}[(s+i/23)%4]), "n": i}
 				case i%3 == 1:
 					payload = map[string]interface{}{"name": "bob", "n": i, "list": []string{"a", "b"}}
 				default:
 					owner = &Owner{Name: "carol"}
 					payload = &P{ID: fmt.Sprintf("id-%d-%d", s, i), User: "alice", Secret: []byte("hunter2"), Digest: "d", Extra: map[string]interface{}{"k": "v", "owner": owner}, N: i}
 				}
-				st, _ := b.Send(ctx, eventlogger.EventType(et), payload)
+				st, _ := b.Send(ctx, realET(et), payload)
 				if owner != nil && owner.Name != "carol" {
 					senderSaw.CompareAndSwap(nil, fmt.Sprintf("after Send returned the sender's own payload was modified: Extra[\"owner\"].Name = %q, it was \"carol\"", owner.Name))
 				}
